@@ -134,6 +134,13 @@ func (vc *VC) rootPkg() string {
 // package being verified.
 func (vc *VC) contractFor(key string) *FuncContract {
 	if c := vc.ctx.contracts[key]; c != nil {
+		// `ownpackage`: the contract is what the function is verified against, but callers in
+		// other packages keep to their own (assumed) declaration of it when they have one
+		if c.OwnPackage && c.PkgPath != vc.rootPkg() {
+			if lc := vc.ctx.contracts[vc.rootPkg()+"=>"+key]; lc != nil {
+				return lc
+			}
+		}
 		return c
 	}
 	return vc.ctx.contracts[vc.rootPkg()+"=>"+key]
